@@ -22,13 +22,14 @@ WILD_FORMS = ['##any', '##other', '##local', '##targetNamespace', ONS, '%s %s' %
               '##local %s' % ONS]
 
 
-def wild_allows(ns_constraint, sym):
+def wild_allows(ns_constraint, sym, tns=TNS):
+    """tns = target namespace of the schema document that declares the wildcard"""
     ns = SYMS[sym][0]
     if ns_constraint == '##any':
         return True
     if ns_constraint == '##other':
-        return ns not in ('', TNS)
-    toks = ['' if t == '##local' else TNS if t == '##targetNamespace' else t for t in ns_constraint.split()]
+        return ns not in ('', tns)
+    toks = ['' if t == '##local' else tns if t == '##targetNamespace' else t for t in ns_constraint.split()]
     return ns in toks
 
 
@@ -36,7 +37,7 @@ def leaf_symbols(leaf):
     """The symbols of SYMS that a leaf matches."""
     if leaf['t'] == 'e':
         return ['h', 'm'] if leaf['n'] == 'h' else [leaf['n']]
-    return [s for s in SYMS if wild_allows(leaf['ns'], s)]
+    return [s for s in SYMS if wild_allows(leaf['ns'], s, leaf.get('tns', TNS))]
 
 
 def leaves(m):
